@@ -183,3 +183,21 @@ def before(src, *parts):
             return False
         pos = i
     return True
+
+
+def self_closure(repo, ci, f, depth=4):
+    """Functions reachable from f through self.<name> loads/calls resolved along ci's MRO (methods and property getters)."""
+    from .loader import walk_local
+    seen = {}
+
+    def rec(fi, d):
+        if fi.fq in seen or d > depth:
+            return
+        seen[fi.fq] = fi
+        for n in walk_local(fi.node):
+            if isinstance(n, ast.Attribute) and is_self_attr(n) and isinstance(n.ctx, ast.Load):
+                m = repo.resolve_method(ci, n.attr)
+                if m is not None:
+                    rec(m, d + 1)
+    rec(f, 0)
+    return seen
